@@ -75,6 +75,11 @@ type Session struct {
 	// the transport until the first request is written, so that one read carries the end of the hello
 	// echo (its delimiter) together with the beginning of the first request's echo.
 	HoldHelloTail int `json:"hold_hello_tail,omitempty"`
+	// TTY: tty line discipline between server and client (a pty in the path: ONLCR): every LF the
+	// server model emits - framing, data, echo - is delivered as CR LF. Value = where read boundaries
+	// are put between the CR and its LF: "none" | "framing" (the pairs right after ##, after a chunk
+	// header, after ]]>]]>) | "random" | "every".
+	TTY string `json:"tty,omitempty"`
 	// SlowLogUs: a debug logger that takes this long for every "channel read" line, i.e. a NETCONF
 	// read loop that runs behind the channel's read loop (schedule perturbation through the
 	// public logging hook)
@@ -353,6 +358,14 @@ func GenSession(r *rand.Rand, idx int) Session {
 	}
 	if s.NoEchoMark && (idx/8)%3 != 0 { // a fixed two thirds of those
 		s.HoldHelloTail = 1 + r.Intn(8)
+	}
+	if idx%3 == 1 { // a fixed third of the sessions runs behind a tty line discipline
+		s.TTY = []string{"every", "framing", "random", "none", "every", "framing"}[(idx/3)%6]
+		if (s.Profile == "big" || s.ReadDelayMs > 0) && s.TTY != "none" {
+			// thousands of pairs in 300 KiB of data / every extra read costs a raised read delay: cut
+			// only the framing pairs
+			s.TTY = "framing"
+		}
 	}
 	maxFill := 600
 	switch {
